@@ -406,6 +406,7 @@ typedef struct {
 	uint64_t tx_key, rx_key;
 	size_t tx_done, rx_done;
 	int ever_sendapp, ever_recvapp;
+	size_t pending_ack;      /* bytes handed to the transport but not yet acknowledged to the engine (completion-style I/O) */
 	const unsigned char *in_hi, *out_lo;   /* engine-split single buffer: highest end of an input region / lowest start of an output region seen */
 	size_t bytes_out, bytes_in;        /* record bytes moved */
 	int rx_bad;                        /* stream oracle failure seen */
@@ -465,6 +466,7 @@ tp_ep_start(tp_ep *ep, const tp_cfg *cfg)
 	ep->tx_done = ep->rx_done = 0;
 	ep->ever_sendapp = ep->ever_recvapp = 0;
 	ep->in_hi = ep->out_lo = NULL;
+	ep->pending_ack = 0;
 	ep->bytes_in = ep->bytes_out = 0;
 	ep->rx_bad = 0;
 	if (!reuse) {
@@ -886,6 +888,7 @@ typedef struct {
 	tp_fifo c2s, s2c;
 	vf_rng rng;
 	int chunk_policy;
+	int defer_acks;        /* split buffers: outgoing bytes are given to the transport at once, acknowledged to the engine later */
 	uint64_t sched_hash;   /* hash of the action sequence: schedule id */
 	long steps;
 	/* optional tap called for every chunk that enters a fifo: dir 0 = c2s */
@@ -935,7 +938,10 @@ tp_pump_step(tp_pair *p)
 	unsigned sc = br_ssl_engine_current_state(p->c.eng);
 	unsigned ss = br_ssl_engine_current_state(p->s.eng);
 
+	/* completion-style output: the ack of bytes already handed over comes later, whatever happened to the engine meanwhile */
+	if (p->c.pending_ack) en[n ++] = 4; else
 	if (sc & BR_SSL_SENDREC) en[n ++] = 0;
+	if (p->s.pending_ack) en[n ++] = 5; else
 	if (ss & BR_SSL_SENDREC) en[n ++] = 1;
 	if ((sc & BR_SSL_RECVREC) && tp_fifo_len(&p->s2c) > 0) en[n ++] = 2;
 	if ((ss & BR_SSL_RECVREC) && tp_fifo_len(&p->c2s) > 0) en[n ++] = 3;
@@ -943,19 +949,31 @@ tp_pump_step(tp_pair *p)
 	pick = (int)vf_below(&p->rng, (uint32_t)n);
 	a = en[pick];
 	switch (a) {
-	case 0: {
-		size_t before = p->c2s.wr;
-		br_ssl_engine_sendrec_buf(p->c.eng, &len);
-		k = tp_act_sendrec(&p->c, &p->c2s, tp_chunk(&p->rng, p->chunk_policy, len));
-		if (p->tap) p->tap(p->tap_arg, 0, p->c2s.data + (p->c2s.wr - k), k);
-		(void)before;
+	case 0: case 1: {
+		tp_ep *e = a == 0 ? &p->c : &p->s;
+		tp_fifo *f = a == 0 ? &p->c2s : &p->s2c;
+		unsigned char *b = br_ssl_engine_sendrec_buf(e->eng, &len);
+		if (p->defer_acks && e->cfg.layout != TP_LAYOUT_MONO && b != NULL && vf_below(&p->rng, 2) == 0) {
+			k = tp_chunk(&p->rng, p->chunk_policy, len);
+			if (k == 0 || k > len) k = len;
+			tp_fifo_put(f, b, k);
+			e->bytes_out += k;
+			e->pending_ack = k;
+		} else {
+			k = tp_act_sendrec(e, f, tp_chunk(&p->rng, p->chunk_policy, len));
+		}
+		if (p->tap) p->tap(p->tap_arg, a, f->data + (f->wr - k), k);
 		break;
 	}
-	case 1:
-		br_ssl_engine_sendrec_buf(p->s.eng, &len);
-		k = tp_act_sendrec(&p->s, &p->s2c, tp_chunk(&p->rng, p->chunk_policy, len));
-		if (p->tap) p->tap(p->tap_arg, 1, p->s2c.data + (p->s2c.wr - k), k);
+	case 4: case 5: {
+		tp_ep *e = a == 4 ? &p->c : &p->s;
+		k = e->pending_ack;
+		e->pending_ack = 0;
+		br_ssl_engine_sendrec_ack(e->eng, k);
+		tp_calls ++;
+		tp_check(e, "sendrec_ack (deferred)");
 		break;
+	}
 	case 2:
 		br_ssl_engine_recvrec_buf(p->c.eng, &len);
 		if (len > tp_fifo_len(&p->s2c)) len = tp_fifo_len(&p->s2c);
